@@ -19,12 +19,12 @@ SEED_HINT = ("Good places to look this time: the error and rejection paths (what
              "between two steps, an application stopped and started again); a default value, class attribute or module constant shared between instances; a loop bound, slice or comparison "
              "that is off by exactly one case. A change inside a small helper that several mechanisms share is better than one in the function everybody reads.")
 
-BENIGN_KINDS = """  - change where behaviour lives in the class structure: move a method body into a private mixin / base class that the class inherits from, turn a group of related private methods into a small strategy object stored on the instance, replace an isinstance chain by functools.singledispatch or a dict keyed by type with an MRO walk, turn a property into a method called at its (few) use sites or the reverse (keeping public names);
-  - iterator style: explicit iter()/next() with a sentinel, itertools (count, takewhile, dropwhile, accumulate, groupby, zip_longest, product), enumerate(start=...), reversed ranges, generator expressions passed to any/all/sum/min/max with key functions, a generator pipeline instead of one loop with several ifs;
-  - state handling: several related attributes gathered into a small private dataclass (mutable) held in one attribute, or such a dataclass dissolved into attributes; a dict of lists replaced by collections.defaultdict / deque where exactly equivalent; tuple keys <-> nested dicts; cached locals for repeatedly read attributes (only where nothing can change them in between);
-  - error handling written differently: a validation block moved into a private `_check_...` function that raises, `raise ... from None` is NOT allowed (changes the traceback chain), but try/finally for clean-up, contextlib.suppress for an ignored KeyError, `else:` blocks on try / for / while, reordering of independent validations is NOT allowed when they can both fail;
-  - expression style: chained comparisons, conditional expressions <-> if statements, `x if x is not None else y` helpers, de Morgan rewrites, arithmetic rewritten (`(i + 1) * k` <-> `i * k + k`, divmod, bit shifts for powers of two), str.format / f-strings / % formatting exchanged with identical output, sorted(...) with key instead of manual search;
-  - module structure: a long function split into three private functions passing a small context object, private module-level helper functions turned into staticmethods of the class that uses them (or the reverse), constants derived from others (`LEN = len(FIELDS)`)."""
+BENIGN_KINDS = """  - helper classes with protocol methods: a small private class with `__iter__` / `__len__` / `__getitem__` / `__contains__` / `__bool__`-free truth (explicit len tests) that wraps a list or dict the code used directly; a `typing.NamedTuple` subclass with one or two methods instead of loose tuples; alternative constructors as `@classmethod`s;
+  - closures with state: a counter or accumulator kept in an enclosing function through `nonlocal`, lambdas that capture a loop value through a default argument, a small factory function returning a configured inner function instead of repeating arguments;
+  - standard-library helpers where exactly equivalent: `functools.reduce`, `operator.add` / `eq` / `not_`, `collections.Counter` / `OrderedDict` / `ChainMap`, `dict.setdefault` / `dict.fromkeys`, dictionary inversion by comprehension, `bisect` over a sorted tuple of thresholds instead of an if-chain on ranges, `str.partition` / `rpartition` / `split(maxsplit=...)` instead of index arithmetic on strings;
+  - dynamic dispatch: `getattr(self, "_handle_" + kind)(...)` over methods named systematically (keeping every existing method name), a registry dict filled by a small decorator at import time, `__init_subclass__`-free class registries built by a loop over `__subclasses__()`;
+  - control flow through exceptions and finally: `try/finally` for a restore step that was written twice, a private exception class used for an early exit from nested loops (caught in the same function), `for ... else` / `while ... else`;
+  - data flow: intermediate results passed as a small dict or tuple instead of several locals, star-unpacking (`first, *rest = ...`, `f(*args, **kwargs)`), swapping via tuple assignment, chained assignment, augmented assignment on attributes and subscripts, conditional imports moved to module level (only if the import has no side effect)."""
 
 
 def common(wt, pid, own):
@@ -77,7 +77,7 @@ Statement: {p['statement']}
 Relevant files: {', '.join(p['anchors']['files'])}
 Mechanisms that make it hold: {mech}
 
-TASK: the property must KEEP holding. Make a realistic, BEHAVIOUR-PRESERVING refactoring of the code that implements the mechanisms above - the kind of clean-up a maintainer would merge. Four earlier rounds already did: tiny private helper classes bundling values with one or two methods, generator functions instead of returned lists, while <-> for, zip / islice instead of index arithmetic, dict merges, functools.partial, dispatch tables, assertions rewritten as raises, and before that: extracting / inlining private helpers (also NamedTuples, closures, context managers, **kwargs helpers), early returns, tuple isinstance, swapped `is None` branches, loops <-> comprehensions, elif chains <-> lookup tables, `get` <-> `in`, enumerate / zip, reordered independent statements, join / format / f-strings, flags <-> for/else, keyword arguments, annotations, walrus, `next(...)` / `any` / `all`, `+=` / extend / unpacking, named constants and import-time tables, nested <-> compound conditions, conditional expressions, try/except <-> tests. This time use DIFFERENT kinds of edits again, for example:
+TASK: the property must KEEP holding. Make a realistic, BEHAVIOUR-PRESERVING refactoring of the code that implements the mechanisms above - the kind of clean-up a maintainer would merge. Five earlier rounds already did: mixins and private base classes, functools.singledispatch, itertools pipelines (dropwhile / takewhile / accumulate / repeat / count), generator expressions feeding loops, private dataclasses for state, contextlib.suppress, iter(callable, sentinel), tiny private helper classes bundling values with one or two methods, generator functions instead of returned lists, while <-> for, zip / islice instead of index arithmetic, dict merges, functools.partial, dispatch tables, assertions rewritten as raises, and before that: extracting / inlining private helpers (also NamedTuples, closures, context managers, **kwargs helpers), early returns, tuple isinstance, swapped `is None` branches, loops <-> comprehensions, elif chains <-> lookup tables, `get` <-> `in`, enumerate / zip, reordered independent statements, join / format / f-strings, flags <-> for/else, keyword arguments, annotations, walrus, `next(...)` / `any` / `all`, `+=` / extend / unpacking, named constants and import-time tables, nested <-> compound conditions, conditional expressions, try/except <-> tests. This time use DIFFERENT kinds of edits again, for example:
 {BENIGN_KINDS}
 Combine 4 to 7 such edits (40-100 changed lines in total) inside the relevant files, concentrated on the functions that implement the mechanisms. The observable behaviour (returned values, emitted instructions and their order, bytes, exceptions and their types and messages, state left behind also on error paths) must be EXACTLY the same for every input, including unusual ones (0 values, None, negative numbers, empty lists, several objects alive at once). Do not rename or change the signature of any existing function, method, class or attribute (new private helpers are fine), keep Python 3.8 compatibility, and do not touch tests/.
 
